@@ -109,7 +109,7 @@ class IndicatorInterp(Interp):
         if fname in self.field_overrides:
             return self.field_overrides[fname]
         fi = self.fields[fname]
-        if not fi.init and fi.has_default and isinstance(fi.default, ast.Constant):
+        if not fi.init and fi.has_default and isinstance(fi.default, ast.Constant) and not self._assigned_elsewhere(fname):
             v = fi.default.value
             if isinstance(v, str):
                 return Str(v)
@@ -125,6 +125,19 @@ class IndicatorInterp(Interp):
         if "str" in ann and "int" not in ann:
             return Str(f"<{fname}>")
         return Num(A("cfg", fname))
+
+    def _assigned_elsewhere(self, fname: str) -> bool:
+        """is self.<fname> stored by any method of the class (then its declared default is not its value)"""
+        cache = self.__dict__.setdefault("_assigned", {})
+        if fname not in cache:
+            hit = False
+            for c in self.repo.mro(self.ci):
+                for m in list(c.methods.values()) + list(c.setters.values()):
+                    for n in ast.walk(m.node):
+                        if isinstance(n, ast.Attribute) and isinstance(n.ctx, (ast.Store, ast.Del)) and n.attr == fname and isinstance(n.value, ast.Name) and n.value.id == "self":
+                            hit = True
+            cache[fname] = hit
+        return cache[fname]
 
     def attr(self, st, base, name, node):
         if isinstance(base, Obj) and base.kind == "self":
